@@ -35,6 +35,20 @@ func main() {
 		for _, id := range ids {
 			fmt.Println(id, registry[id].Title)
 		}
+	case "txns":
+		P, err := loadProg("/repo", false, nil)
+		if err != nil {
+			fmt.Println(err)
+			os.Exit(2)
+		}
+		for _, s := range P.txnSites() {
+			g, why := false, ""
+			func() {
+				defer func() { recover() }()
+				g, why = s.leaderGuarded(P)
+			}()
+			fmt.Printf("%s %-6s %-60s key=%s lease=%v then=%v origin=%s if=%v leaderGuard=%v (%s) commit=%v\n", P.instrPos(s.Op), s.Kind, fnName(s.Fn), s.KeyAtoms, s.Lease, s.Then != nil, s.Origin, s.HasIf, g, why, s.Commit != nil)
+		}
 	case "selftest":
 		os.Exit(cmdSelftest(os.Args[2:]))
 	default:
